@@ -189,6 +189,30 @@ fn scenarios() -> Vec<Scn> {
     add("onesubject:turtle", false, u64::MAX);
     add("onesubject:jsonld", false, u64::MAX);
     add("onesubject:rdfxml", false, u64::MAX);
+    // one subject and ONE predicate carrying N objects (object lists; `+type`: the predicate is rdf:type,
+    // which the pretty printers write through their own `a` path)
+    add("onepredicate:turtle-pretty+type", true, 600_000);
+    add("onepredicate:turtle-pretty+plain", true, 600_000);
+    add("onepredicate:trig-pretty+type", false, 600_000);
+    add("onepredicate:turtle+plain", false, u64::MAX);
+    add("onepredicate:rdfxml+type", false, u64::MAX);
+    add("onepredicate:jsonld+type", false, u64::MAX);
+    // stream adapters (filter / filter_map / map, as sources and as iterators) over a parser or an
+    // iterator source, the closure rejecting a run of N consecutive statements
+    for (src, adapter, quick) in [
+        ("nt", "filter", true),
+        ("nt", "filter_map", false),
+        ("nt", "filter_map.into_iter", true),
+        ("nt", "filter+map.into_iter", false),
+        ("nq", "filter_map.into_iter", true),
+        ("nq", "filter", false),
+        ("turtle", "filter_map.into_iter", false),
+        ("iter", "filter", false),
+        ("iter", "filter_map.into_iter", true),
+        ("iter", "filter+filter_map.into_iter", false),
+    ] {
+        add(&format!("adapter:{src}+{adapter}"), quick, u64::MAX);
+    }
     // mutation
     add("mutate:fd-remove-matching", true, u64::MAX);
     add("mutate:ld-retain-matching", true, u64::MAX);
@@ -573,6 +597,92 @@ fn scenario(name: &str, n: u64) -> Result<String, String> {
                 })
                 .collect();
             serialize(what, &qs)
+        }
+        "onepredicate" => {
+            let (syntax, kind) = what.split_once('+').unwrap_or((what, "plain"));
+            let quads = matches!(syntax, "trig-pretty" | "jsonld");
+            let p = if kind == "type" { "http://www.w3.org/1999/02/22-rdf-syntax-ns#type".to_string() } else { "http://x/p".to_string() };
+            let qs: Vec<MQ> = (0..n)
+                .map(|i| MQ::new(iri("http://x/s".into()), iri(p.clone()), iri(format!("http://x/C{i}")), if quads { Some(iri("http://x/g".into())) } else { None }))
+                .collect();
+            serialize(syntax, &qs)
+        }
+        "adapter" => {
+            use sophia_api::quad::Quad as _;
+            use sophia_api::term::SimpleTerm;
+            use sophia_turtle::parser::{nq::NQuadsParser, nt::NTriplesParser, turtle::TurtleParser};
+            let (src, adapter) = what.split_once('+').ok_or("bad adapter scenario")?;
+            // N statements to reject, then one to keep
+            let mut qs: Vec<MQ> = (0..n).map(|i| MQ::new(iri(format!("http://x/s{}", i % 7)), iri("http://x/reject".into()), MT::string(format!("v{i}")), None)).collect();
+            qs.push(MQ::new(iri("http://x/s".into()), iri("http://x/keep".into()), MT::string("kept"), None));
+            let text: String = qs.iter().map(nt_line).collect();
+            fn keep_t<T: sophia_api::triple::Triple>(t: &T) -> bool {
+                use sophia_api::term::Term;
+                t.p().iri().map(|i| i.as_str().ends_with("keep")).unwrap_or(false)
+            }
+            fn keep_q<Q: sophia_api::quad::Quad>(q: &Q) -> bool {
+                use sophia_api::term::Term;
+                q.p().iri().map(|i| i.as_str().ends_with("keep")).unwrap_or(false)
+            }
+            fn own<T: sophia_api::triple::Triple>(t: T) -> [sophia_api::term::SimpleTerm<'static>; 3] {
+                use sophia_api::term::Term;
+                [t.s().into_term(), t.p().into_term(), t.o().into_term()]
+            }
+            let mut c = 0u64;
+            macro_rules! triples {
+                ($source:expr) => {
+                    match adapter {
+                        "filter" => $source.filter_triples(|t| keep_t(t)).for_each_triple(|_| c += 1).map_err(|e| e.to_string())?,
+                        "filter_map" => $source.filter_map_triples(|t| if keep_t(&t) { Some(own(t)) } else { None }).for_each_triple(|_| c += 1).map_err(|e| e.to_string())?,
+                        "filter_map.into_iter" => {
+                            for r in $source.filter_map_triples(|t| if keep_t(&t) { Some(own(t)) } else { None }).into_iter() {
+                                r.map_err(|e| e.to_string())?;
+                                c += 1;
+                            }
+                        }
+                        "filter+map.into_iter" => {
+                            for r in $source.filter_triples(|t| keep_t(t)).map_triples(|t| own(t)).into_iter() {
+                                r.map_err(|e| e.to_string())?;
+                                c += 1;
+                            }
+                        }
+                        "filter+filter_map.into_iter" => {
+                            for r in $source.filter_triples(|t| keep_t(t)).filter_map_triples(|t| Some(own(t))).into_iter() {
+                                r.map_err(|e| e.to_string())?;
+                                c += 1;
+                            }
+                        }
+                        other => return Err(format!("unknown adapter {other}")),
+                    }
+                };
+            }
+            match src {
+                "nt" => triples!(NTriplesParser {}.parse_str(&text)),
+                "turtle" => triples!(TurtleParser { base: None }.parse_str(&text)),
+                "iter" => triples!(triple_source(&qs)),
+                "nq" => {
+                    let source = NQuadsParser {}.parse_str(&text);
+                    match adapter {
+                        "filter" => source.filter_quads(|q| keep_q(q)).for_each_quad(|_| c += 1).map_err(|e| e.to_string())?,
+                        "filter_map.into_iter" => {
+                            use sophia_api::term::Term;
+                            for r in source
+                                .filter_map_quads(|q| if keep_q(&q) { Some(([q.s().into_term::<SimpleTerm<'static>>(), q.p().into_term(), q.o().into_term()], None::<SimpleTerm<'static>>)) } else { None })
+                                .into_iter()
+                            {
+                                r.map_err(|e| e.to_string())?;
+                                c += 1;
+                            }
+                        }
+                        other => return Err(format!("unknown adapter {other}")),
+                    }
+                }
+                other => return Err(format!("unknown source {other}")),
+            }
+            if c != 1 {
+                return Err(format!("kept {c} statements, expected 1"));
+            }
+            Ok(format!("kept={c}"))
         }
         "mutate" => match what {
             "fd-remove-matching" => {
